@@ -13,7 +13,7 @@ import (
 	"time"
 
 	"verif/core"
-	_ "verif/oracle"
+	"verif/oracle"
 )
 
 func main() {
@@ -23,6 +23,12 @@ func main() {
 	}
 	mode, id := os.Args[1], os.Args[2]
 	switch mode {
+	case "reghist": // verifrun reghist <op,op,...> <rotation>: one registry history in this fresh process
+		rot := 0
+		if len(os.Args) > 3 {
+			fmt.Sscan(os.Args[3], &rot)
+		}
+		oracle.RunRegHistory(strings.Split(id, ","), rot)
 	case "run":
 		fs := flag.NewFlagSet("run", flag.ExitOnError)
 		tier := fs.String("tier", "quick", "")
